@@ -90,38 +90,90 @@ def k21_match_overrides(ctx, pid: str):
     r = ctx.report
     sr = p.get_class("moclo.core._structured.StructuredRecord")
     base_match = sr.attrs.get("_match")
-    seen, funcs = set(), []
+    if not isinstance(base_match, FuncInfo):
+        raise AnalysisError("anchor vanished: StructuredRecord._match")
+    rx_cls = p.get_class("moclo.regex.DNARegex")
+
+    # which methods take part in the evaluation of _match: _match itself and whatever it reaches through self.<name>
+    def reached(ci):
+        names, todo, out = set(), ["_match"], []
+        while todo:
+            nm = todo.pop()
+            if nm in names:
+                continue
+            names.add(nm)
+            for c in p.mro(ci):
+                if isinstance(c, ClassInfo):
+                    raw = c.attrs.get(nm)
+                    if isinstance(raw, FuncInfo):
+                        out.append(raw)
+                        me = raw.node.args.args[0].arg if raw.node.args.args else "self"
+                        for n in ast.walk(raw.node):
+                            if isinstance(n, ast.Attribute) and isinstance(n.value, ast.Name) and n.value.id == me and n.attr not in names:
+                                for c2 in p.mro(ci):
+                                    if isinstance(c2, ClassInfo) and isinstance(c2.attrs.get(n.attr), FuncInfo) and n.attr not in ("_get_regex", "structure"):
+                                        todo.append(n.attr)
+                                        break
+        return sorted(names)
+
+    # one evaluation per distinct resolution of those methods (AbstractModule and AbstractVector on today's tree)
+    groups: Dict[tuple, list] = {}
     for kc in ctx.inventory:
-        for c in p.mro(kc.ci):
-            if isinstance(c, ClassInfo):
-                raw = c.attrs.get("_match")
-                if isinstance(raw, FuncInfo) and raw is not base_match and id(raw) not in seen:
-                    seen.add(id(raw))
-                    funcs.append((c, raw))
+        sig = []
+        for nm in reached(kc.ci):
+            o_, raw = p.class_attr_def(kc.ci, nm)
+            if isinstance(raw, FuncInfo):
+                sig.append(raw.qualname)
+        groups.setdefault(tuple(sig), []).append(kc)
+    funcs = []
+    for sig, kcs in sorted(groups.items()):
+        # the most general class with that resolution that declares a cutter slot
+        rep = None
+        for c in p.mro(kcs[0].ci):
+            if isinstance(c, ClassInfo) and p.is_subclass(c, sr) and p.class_attr_def(c, "cutter")[0] is not None:
+                s2 = []
+                for nm in reached(c):
+                    o_, raw = p.class_attr_def(c, nm)
+                    if isinstance(raw, FuncInfo):
+                        s2.append(raw.qualname)
+                if tuple(s2) == sig:
+                    rep = c
+        if rep is None:
+            rep = kcs[0].ci
+        o_, fi = p.class_attr_def(rep, "_match")
+        label = ([q for q in sig if not q.startswith(sr.qualname + ".")] or [fi.qualname + "@" + rep.name])[0]
+        funcs.append((rep, fi, label, kcs))
     sm_cls = p.get_class("moclo.regex.SeqMatch")
     if not hasattr(ctx, "k21_info"):
         ctx.k21_info = {}
     from .kernels import S0 as S0_, E3 as E3_
-    for owner, fi in funcs:
-        def base_hook(I, f, args, kwargs):
+    for owner, fi, label, kcs in funcs:
+        def search_hook(I, f, args, kwargs):
             I.path.effects.append(("super-match",))
             if I.path.choose("structure", ["found", "none"]) == "none":
-                raise RaiseSig(AExc(p.get_class("moclo.errors.InvalidSequence"), [Term("record")], {}))
-            rec = args[0].attrs["record"]
+                return None
+            rec = args[1]
             rm = AReMatch(ASeq("str", rec.pieces + rec.pieces), _spans())
-            I.the_match = AObj(sm_cls, {"match": rm, "rec": rec, "shift": 0}, name="the-match")
+            from .kernels2 import new_seqmatch
+
+            I.the_match = new_seqmatch(p, rm, rec, name="the-match")
             return I.the_match
 
+        def get_regex_hook(I, f, args, kwargs):
+            return AObj(rx_cls, {}, name="rx")
+
         hooks = dict(FRAG_HOOKS)
-        hooks[base_match.qualname] = base_hook
+        hooks["moclo.regex.DNARegex.search"] = search_hook
+        hooks["moclo.core._structured.StructuredRecord._get_regex"] = get_regex_hook
 
         def make_args(I, owner=owner):
             rec = circ_record("W:x", ident="x")
+            rec.attrs["annotations"] = {}
             obj = AObj(owner, {"record": rec, "seq": ASeq("Seq", rec.pieces), "cutter": AEnzymeV(True)}, name="x")
             return (obj,), {}
 
-        def post(I, o, fi=fi):
-            name = fi.qualname
+        def post(I, o, fi=fi, label=label, kcs=kcs):
+            name = label
             found = ("structure", "found") in o.path.choices
             asked = any(e[0] == "super-match" for e in o.path.effects)
             if not asked:
@@ -132,9 +184,11 @@ def k21_match_overrides(ctx, pid: str):
             for e in o.path.effects:
                 if e[0] == "text-search" and not e[2]:
                     ctx.report.ob("K21.case-sensitive-search", "%s#%s" % (name, e[1]), False,
-                                  "the matched text is searched with str.%s without case normalisation: a lower-case spelling of the same record is screened differently" % e[1], fi.where())
+                                  "the matched text is searched with %s without case normalisation: a lower-case spelling of the same record is screened differently" % (e[1] if "." in e[1] else "str." + e[1]), fi.where())
             screened = [t for t, v in o.path.choices if t.startswith("arith ") and "len(fragments" in t]
             info = ctx.k21_info.setdefault(name, {"raises": [], "digests": []})
+            for kc_ in kcs:
+                ctx.k21_info[kc_.name] = info
             for e in o.path.effects:
                 if e[0] == "catalyse":
                     recv, cargs, ckw = e[1], e[2], e[3]
@@ -150,6 +204,13 @@ def k21_match_overrides(ctx, pid: str):
                     b = I.path.cons.bounds(Aff.sym(sym))[0]
                     lb = b if lb is None else max(lb, b)
                 info["raises"].append({"min_fragments": lb, "moclo_error": _is_exc(p, o.value, "moclo.errors.InvalidSequence")})
+            if o.kind == "raise" and screened and not _is_exc(p, o.value, "moclo.errors.InvalidSequence"):
+                return [("K21.match-override", name, False,
+                         "a record screened out for an illegal site must be refused with IllegalSite (an InvalidSequence): this path ends with %r instead"
+                         % (o.value,))]
+            if o.kind == "raise" and not screened and any(e[0] == "text-search" and e[1].startswith("compsite.") and e[2] for e in o.path.effects):
+                raise AnalysisError("%s: the illegal-site screen counts matches of the enzyme's compiled site pattern on upper-cased text instead of "
+                                    "digesting the match; that route is outside the modelled library contract (T4), the screen is not decided" % fi.where())
             if o.kind == "raise":
                 ok = bool(screened) and _is_exc(p, o.value, "moclo.errors.InvalidSequence")
                 return [("K21.match-override", name, ok,
@@ -211,6 +272,24 @@ def helper_rules(ctx, rule: str):
                 if isinstance(c, ClassInfo):
                     names += [n for n in c.attrs if n not in names]
             return AList(names)
+        if dotted == "inspect.getmro" and args and isinstance(args[0], ClassInfo):
+            return AList([c for c in p.mro(args[0])])
+        if dotted == "builtins.vars" and args and isinstance(args[0], ClassInfo):
+            # the class's own namespace
+            own = {}
+            for nm, raw in args[0].attrs.items():
+                if isinstance(raw, FuncInfo):
+                    own[nm] = Term("function", Term(raw.qualname))
+                elif isinstance(raw, ast.Name) and raw.id == "NotImplemented":
+                    own[nm] = AStruct("NotImplemented")
+                elif isinstance(raw, ast.Constant):
+                    own[nm] = raw.value
+                else:
+                    from .loader import Const
+                    own[nm] = (AStruct("NotImplemented") if raw.value is NotImplemented else raw.value) if isinstance(raw, Const) else Term("value", Term("%s.%s" % (args[0].qualname, nm)))
+            return own
+        if dotted == "builtins.vars" and args and isinstance(args[0], Ext):
+            return {}
         if dotted == "builtins.getattr" and len(args) >= 2 and isinstance(args[0], ClassInfo) and isinstance(args[1], str):
             v = class_value(args[0], args[1])
             if v is NotImplemented:
@@ -276,36 +355,32 @@ def assembly_layering_rule(ctx, rule: str):
     what the walk uses as long as the walk does not redo it by hand."""
     p = ctx.program
     r = ctx.report
-    m = p.modules["moclo.core._assembly"]
-    parents = {}
-    for node in ast.walk(m.tree):
-        for ch in ast.iter_child_nodes(node):
-            parents[id(ch)] = node
+    from .roles import layer_functions
+
     n = 0
-    bad = []
-    for node in ast.walk(m.tree):
-        why = None
-        if isinstance(node, ast.Attribute) and node.attr in ("_match", "_get_regex", "structure"):
-            why = "reads the private `%s` of a module or vector" % node.attr
-        elif isinstance(node, ast.Call) and isinstance(node.func, ast.Attribute) and node.func.attr in ("span", "group") and not (
-                isinstance(node.func.value, ast.Name) and node.func.value.id in ("match", "m")):
-            why = "does span/group arithmetic on a structure match"
-        elif isinstance(node, ast.BinOp) and isinstance(node.op, (ast.LShift, ast.RShift)):
-            why = "rotates a record itself"
-        elif isinstance(node, ast.Subscript) and isinstance(node.slice, ast.Slice):
-            root, path = chain_of(node.value)
-            if ".record" in "".join(path) or ".seq" in "".join(path):
-                why = "slices an input's record itself"
-        if why:
-            bad.append((node, why))
-    funcs = [v for ci in m.classes.values() for v in ci.attrs.values() if isinstance(v, FuncInfo)]
-    for fi in funcs:
+    for fi in layer_functions(p):
+        m = fi.module
+        mine = []
+        for node in ast.walk(fi.node):
+            why = None
+            if isinstance(node, ast.Attribute) and node.attr in ("_match", "_get_regex", "structure"):
+                why = "reads the private `%s` of a module or vector" % node.attr
+            elif isinstance(node, ast.Call) and isinstance(node.func, ast.Attribute) and node.func.attr in ("span", "group") and not (
+                    isinstance(node.func.value, ast.Name) and node.func.value.id in ("match", "m")):
+                why = "does span/group arithmetic on a structure match"
+            elif isinstance(node, ast.BinOp) and isinstance(node.op, (ast.LShift, ast.RShift)):
+                why = "rotates a record itself"
+            elif isinstance(node, ast.Subscript) and isinstance(node.slice, ast.Slice):
+                root, path = chain_of(node.value)
+                if ".record" in "".join(path) or ".seq" in "".join(path):
+                    why = "slices an input's record itself"
+            if why:
+                mine.append((node, why))
         n += 1
-        mine = [(nd, w) for nd, w in bad if fi.node.lineno <= nd.lineno <= (fi.node.end_lineno or fi.node.lineno)]
         r.ob(rule, fi.qualname, not mine,
              "the assembly %s (`%s`): fragments and overhangs must come from the accessors" % (mine[0][1], re.sub(r"\s+", " ", m.segment(mine[0][0]) or "")[:80]) if mine else "",
              "%s:%d" % (m.relpath, mine[0][0].lineno if mine else fi.node.lineno))
-    r.floor(rule, 6)
+    r.floor(rule, 4)
 
 
 def fragment_cache_rule(ctx, rule: str):
@@ -440,65 +515,134 @@ def text_consumers_rule(ctx, rule: str):
     shortcut) has its own idea of letter case and of IUPAC codes."""
     p = ctx.program
     r = ctx.report
-    fi = p.get_func("moclo.regex.DNARegex.search")
-    fn = fi.node
-    # names holding the text: assigned from str(<target>...) and what is derived from them
-    text = set()
-    changed = True
-    while changed:
-        changed = False
-        for n in ast.walk(fn):
-            if isinstance(n, (ast.Assign, ast.AugAssign)):
-                tg = n.targets if isinstance(n, ast.Assign) else [n.target]
-                val = n.value
-                src = fi.module.segment(val) or ""
-                def texty(v):
-                    if isinstance(v, ast.Call) and isinstance(v.func, ast.Name) and v.func.id == "str":
-                        return True
-                    if isinstance(v, ast.Name):
-                        return v.id in text
-                    if isinstance(v, ast.BinOp):
-                        return texty(v.left) or texty(v.right)
-                    if isinstance(v, ast.Subscript):
-                        return texty(v.value)
-                    if isinstance(v, ast.IfExp):
-                        return texty(v.body) or texty(v.orelse)
-                    return False
+    entry = p.get_func("moclo.regex.DNARegex.search")
 
-                is_text = texty(val)
-                if isinstance(val, ast.Call) and isinstance(val.func, ast.Attribute) and isinstance(val.func.value, ast.Name) and val.func.value.id in text and val.func.attr in ("upper", "lower"):
-                    is_text = True
-                for t in tg:
-                    if isinstance(t, ast.Name) and is_text and t.id not in text:
-                        text.add(t.id)
-                        changed = True
-    if not text:
-        raise AnalysisError("%s: cannot find the text derived from the target" % fi.where())
-    parents = {}
-    for node in ast.walk(fn):
-        for ch in ast.iter_child_nodes(node):
-            parents[id(ch)] = node
+    def helper_of(fi, call):
+        f = call.func
+        g = None
+        if isinstance(f, ast.Attribute) and isinstance(f.value, ast.Name) and f.value.id in ("self", "cls") and fi.owner is not None:
+            _, g = p.class_attr_def(fi.owner, f.attr)
+        elif isinstance(f, ast.Name):
+            g = p.resolve_expr(fi.module, f)
+        return g if isinstance(g, FuncInfo) else None
+
+    memo = {}
+
+    def text_names(fi, depth=2):
+        """names of fi holding text derived from the target: assigned from str(...), from a helper returning such a
+        text, or derived from one of those by + * slicing upper/lower"""
+        if fi.qualname in memo:
+            return memo[fi.qualname]
+        memo[fi.qualname] = (set(), False)
+        text = set()
+
+        def texty(v):
+            if isinstance(v, ast.Call) and isinstance(v.func, ast.Name) and v.func.id == "str":
+                return True
+            if isinstance(v, ast.Call) and depth > 0:
+                g = helper_of(fi, v)
+                if g is not None and text_names(g, depth - 1)[1]:
+                    return True
+            if isinstance(v, ast.Call) and isinstance(v.func, ast.Attribute) and v.func.attr in ("upper", "lower") and texty(v.func.value):
+                return True
+            if isinstance(v, ast.Name):
+                return v.id in text
+            if isinstance(v, ast.BinOp):
+                return texty(v.left) or texty(v.right)
+            if isinstance(v, ast.Subscript):
+                return texty(v.value)
+            if isinstance(v, ast.IfExp):
+                return texty(v.body) or texty(v.orelse)
+            return False
+
+        changed = True
+        while changed:
+            changed = False
+            for n in ast.walk(fi.node):
+                if isinstance(n, (ast.Assign, ast.AugAssign)):
+                    tg = n.targets if isinstance(n, ast.Assign) else [n.target]
+                    if texty(n.value):
+                        for t in tg:
+                            if isinstance(t, ast.Name) and t.id not in text:
+                                text.add(t.id)
+                                changed = True
+        returns_text = any(isinstance(n, ast.Return) and n.value is not None and texty(n.value) for n in ast.walk(fi.node))
+        memo[fi.qualname] = (text, returns_text)
+        return memo[fi.qualname]
+
+    text_names(entry)
+    funcs = [p.get_func(q) if q != entry.qualname else entry for q in []]
+    todo = [entry]
+    for n in ast.walk(entry.node):
+        if isinstance(n, ast.Call):
+            g = helper_of(entry, n)
+            if g is not None and text_names(g)[1] and g not in todo:
+                todo.append(g)
+    if not any(memo[f.qualname][0] for f in todo):
+        raise AnalysisError("%s: cannot find the text derived from the target" % entry.where())
     n_uses = 0
-    for n in ast.walk(fn):
-        if isinstance(n, ast.Name) and n.id in text and isinstance(n.ctx, ast.Load):
-            par = parents.get(id(n))
-            ok = False
-            if isinstance(par, ast.Call) and n in par.args:
-                f = par.func
-                ok = (isinstance(f, ast.Attribute) and f.attr in ("match", "fullmatch") ) or (isinstance(f, ast.Name) and f.id in ("len", "str"))
-            elif isinstance(par, (ast.BinOp, ast.AugAssign, ast.Subscript, ast.Assign)):
-                ok = True
-            elif isinstance(par, ast.Attribute) and par.attr in ("upper", "lower"):
-                ok = True
-            elif isinstance(par, (ast.If, ast.While, ast.IfExp, ast.BoolOp)) or (isinstance(par, ast.UnaryOp) and isinstance(par.op, ast.Not)):
-                ok = True  # emptiness test
-            elif isinstance(par, ast.Compare) and all(isinstance(x, ast.Constant) for x in [par.left] + par.comparators if x is not n) \
-                    and all(isinstance(o, (ast.Eq, ast.NotEq, ast.Is, ast.IsNot)) for o in par.ops):
-                ok = True  # comparison with a constant
-            n_uses += 1
-            r.ob(rule, "%s#%s@%s" % (fi.qualname, n.id, re.sub(r"\W+", "", fi.module.segment(par) or "")[:50]), ok,
-                 "the searched text is inspected outside the compiled pattern: `%s` (a shortcut on the raw text has its own letter-case and IUPAC semantics)"
-                 % re.sub(r"\s+", " ", fi.module.segment(par) or "")[:100], "%s:%d" % (fi.module.relpath, n.lineno))
+    seeded: Dict[str, set] = {}
+    k_todo = 0
+    while k_todo < len(todo):
+        fi = todo[k_todo]
+        k_todo += 1
+        fn = fi.node
+        text = set(memo.get(fi.qualname, (set(), False))[0]) | seeded.get(fi.qualname, set())
+        if seeded.get(fi.qualname):
+            # names derived from a text parameter
+            changed = True
+            while changed:
+                changed = False
+                for n in ast.walk(fn):
+                    if isinstance(n, (ast.Assign, ast.AugAssign)):
+                        tg = n.targets if isinstance(n, ast.Assign) else [n.target]
+                        if any(isinstance(x, ast.Name) and x.id in text for x in ast.walk(n.value)) and not isinstance(n.value, ast.Call):
+                            for t in tg:
+                                if isinstance(t, ast.Name) and t.id not in text:
+                                    text.add(t.id)
+                                    changed = True
+        parents = {}
+        for node in ast.walk(fn):
+            for ch in ast.iter_child_nodes(node):
+                parents[id(ch)] = node
+        for n in ast.walk(fn):
+            if isinstance(n, ast.Name) and n.id in text and isinstance(n.ctx, ast.Load):
+                par = parents.get(id(n))
+                ok = False
+                # text.upper() / text.lower() handed on: still the text
+                if isinstance(par, ast.Attribute) and par.attr in ("upper", "lower"):
+                    c1 = parents.get(id(par))
+                    c2 = parents.get(id(c1)) if isinstance(c1, ast.Call) and c1.func is par else None
+                    if isinstance(c2, ast.Call) and c1 in c2.args:
+                        n, par = c1, c2
+                if isinstance(par, ast.Call) and n in par.args:
+                    f = par.func
+                    ok = (isinstance(f, ast.Attribute) and f.attr in ("match", "fullmatch")) or (isinstance(f, ast.Name) and f.id in ("len", "str"))
+                    g = helper_of(fi, par) if not ok else None
+                    if g is not None and not any(isinstance(x, ast.Starred) for x in par.args):
+                        # handed to a helper: the helper's uses of that parameter are checked in turn
+                        params = [x.arg for x in g.node.args.posonlyargs + g.node.args.args]
+                        if g.owner is not None and g.kind in ("method", "classmethod") and isinstance(f, ast.Attribute):
+                            params = params[1:]
+                        k = par.args.index(n)
+                        if k < len(params) and len(todo) < 12:
+                            seeded.setdefault(g.qualname, set()).add(params[k])
+                            if g not in todo[k_todo:]:
+                                todo.append(g)
+                            ok = True
+                elif isinstance(par, (ast.BinOp, ast.AugAssign, ast.Subscript, ast.Assign, ast.Return)):
+                    ok = True
+                elif isinstance(par, ast.Attribute) and par.attr in ("upper", "lower"):
+                    ok = True
+                elif isinstance(par, (ast.If, ast.While, ast.IfExp, ast.BoolOp)) or (isinstance(par, ast.UnaryOp) and isinstance(par.op, ast.Not)):
+                    ok = True  # emptiness test
+                elif isinstance(par, ast.Compare) and all(isinstance(x, ast.Constant) for x in [par.left] + par.comparators if x is not n) \
+                        and all(isinstance(o, (ast.Eq, ast.NotEq, ast.Is, ast.IsNot)) for o in par.ops):
+                    ok = True  # comparison with a constant
+                n_uses += 1
+                r.ob(rule, "%s#%s@%s" % (fi.qualname, getattr(n, "id", "text"), re.sub(r"\W+", "", fi.module.segment(par) or "")[:50]), ok,
+                     "the searched text is inspected outside the compiled pattern: `%s` (a shortcut on the raw text has its own letter-case and IUPAC semantics)"
+                     % re.sub(r"\s+", " ", fi.module.segment(par) or "")[:100], "%s:%d" % (fi.module.relpath, n.lineno))
     r.floor(rule, 1)
 
 
@@ -512,30 +656,59 @@ def order_independence_rule(ctx, rule: str):
     p = ctx.program
     r = ctx.report
     m = p.modules["moclo.core._assembly"]
-    parents: Dict[int, ast.AST] = {}
-    for node in ast.walk(m.tree):
-        for ch in ast.iter_child_nodes(node):
-            parents[id(ch)] = node
+
+    def parent_map(tree):
+        pm: Dict[int, ast.AST] = {}
+        for node in ast.walk(tree):
+            for ch in ast.iter_child_nodes(node):
+                pm[id(ch)] = node
+        return pm
+
+    parents = parent_map(m.tree)
+
+    def whole(node, par, mod, depth=2) -> bool:
+        """the collection `node` is consumed as a whole by its parent construct"""
+        if isinstance(par, ast.For) and par.iter is node:
+            return not any(isinstance(x, ast.Break) for x in ast.walk(par)) and not par.orelse
+        if isinstance(par, ast.comprehension) and par.iter is node:
+            return True
+        if isinstance(par, ast.BinOp) and isinstance(par.op, ast.Add):
+            return True
+        if isinstance(par, ast.Starred):
+            return True
+        if isinstance(par, ast.Call) and node in par.args and isinstance(par.func, ast.Name) and par.func.id in ("list", "tuple", "set", "len", "sorted", "frozenset"):
+            return True
+        if isinstance(par, ast.Call) and node in par.args and depth > 0:
+            # handed to a function of the repository: every use of the parameter in there consumes it as a whole
+            g = None
+            if isinstance(par.func, ast.Name):
+                g = p.resolve_expr(mod, par.func)
+            elif isinstance(par.func, ast.Attribute) and isinstance(par.func.value, ast.Name) and par.func.value.id in ("self", "cls"):
+                for ci in mod.classes.values():
+                    if ci.node.lineno <= par.lineno <= (ci.node.end_lineno or par.lineno):
+                        _, g = p.class_attr_def(ci, par.func.attr)
+            if isinstance(g, FuncInfo) and not any(isinstance(x, ast.Starred) for x in par.args):
+                params = [x.arg for x in g.node.args.posonlyargs + g.node.args.args]
+                if g.owner is not None and g.kind == "method" and isinstance(par.func, ast.Attribute):
+                    params = params[1:]
+                k = par.args.index(node)
+                if k < len(params):
+                    pm = parent_map(g.node)
+                    uses = [x for x in ast.walk(g.node) if isinstance(x, ast.Name) and x.id == params[k] and isinstance(x.ctx, ast.Load)]
+                    stores = [x for x in ast.walk(g.node) if isinstance(x, ast.Name) and x.id == params[k] and not isinstance(x.ctx, ast.Load)]
+                    return not stores and all(whole(u, pm.get(id(u)), g.module, depth - 1) for u in uses)
+        return False
+
     n = 0
     for node in ast.walk(m.tree):
         if isinstance(node, ast.Attribute) and node.attr in ("modules", "elements") and isinstance(node.value, ast.Name) and node.value.id == "self" and isinstance(node.ctx, ast.Load):
             par = parents.get(id(node))
-            ok = False
-            if isinstance(par, ast.For) and par.iter is node:
-                ok = not any(isinstance(x, ast.Break) for x in ast.walk(par)) and not par.orelse
-            elif isinstance(par, ast.comprehension) and par.iter is node:
-                ok = True
-            elif isinstance(par, ast.BinOp) and isinstance(par.op, ast.Add):
-                ok = True
-            elif isinstance(par, ast.Starred):
-                ok = True
-            elif isinstance(par, ast.Call) and node in par.args and isinstance(par.func, ast.Name) and par.func.id in ("list", "tuple", "set", "len", "sorted", "iter"):
-                ok = par.func.id != "iter"
+            ok = whole(node, par, m)
             n += 1
             r.ob(rule, "moclo.core._assembly#self.%s@%s" % (node.attr, re.sub(r"\W+", "", m.segment(par) or "")[:50]), ok,
                  "the list of supplied modules must be consumed as a whole (iteration, concatenation, join); `%s` depends on the argument order"
                  % re.sub(r"\s+", " ", m.segment(par) or "")[:100], "%s:%d" % (m.relpath, node.lineno))
-    r.floor(rule, 4)
+    r.floor(rule, 2)
 
 
 # ---------------------------------------------------------------------------
@@ -674,7 +847,7 @@ def kernel_raise_classes(ctx, rule: str):
     # the walk kernels record their outcomes' exception classes in ctx.walk_raises
     p = ctx.program
     r = ctx.report
-    for fn_name, exc in sorted(getattr(ctx, "walk_raises", set())):
+    for fn_name, exc in sorted(getattr(ctx, "walk_raises", set()), key=lambda t: (t[0], getattr(t[1], "qualname", str(t[1])))):
         ok = isinstance(exc, ClassInfo) and p.is_subclass(exc, p.get_class("moclo.errors.MocloError"))
         r.ob(rule, "%s#%s" % (fn_name, exc.name if isinstance(exc, ClassInfo) else exc), ok,
              "an assembly must end with a product or a documented MoClo exception, this path raises %s" % (exc.qualname if isinstance(exc, ClassInfo) else exc), "")
@@ -880,6 +1053,9 @@ def read_set_rule(ctx, rule: str, records):
                      "the walk branches on a property of a module other than its overhangs (%s): replacing the module by a same-signature one could change the outcome" % tag, where)
     r.floor(rule + ".module-reads", 3)
     # .record uses in _assembly.py: .record.id (comment, messages) and .record as argument of the citation rewrite only
+    from .roles import citation_functions
+
+    rewrite_names = {f.name for f in citation_functions(p)}
     m = p.modules["moclo.core._assembly"]
     parents: Dict[int, ast.AST] = {}
     for node in ast.walk(m.tree):
@@ -892,7 +1068,8 @@ def read_set_rule(ctx, rule: str, records):
             ok = False
             if isinstance(par, ast.Attribute) and par.attr == "id":
                 ok = True
-            elif isinstance(par, ast.Call) and node in par.args and isinstance(par.func, ast.Attribute) and par.func.attr in ("_deref_citations", "_ref_citations"):
+            elif isinstance(par, ast.Call) and node in par.args and isinstance(par.func, (ast.Attribute, ast.Name)) \
+                    and (par.func.attr if isinstance(par.func, ast.Attribute) else par.func.id) in rewrite_names:
                 ok = True
             r.ob(rule + ".record-uses", "moclo.core._assembly#%s" % re.sub(r"\W+", "", m.segment(par) or "")[:60], ok,
                  "an input's record is used for something other than its id or the citation rewrite: `%s`" % re.sub(r"\s+", " ", m.segment(par) or "")[:100],
